@@ -1,4 +1,214 @@
+import Std.Data.HashMap
 import Model.Base.Proto
+import Model.Fmt.Reader
+import Model.Fmt.Writer
+import Model.Spec.RoundTrip
 
-/-- stub: replaced when the property's driver is built -/
-def main : IO Unit := pure ()
+/-
+C01 driver.
+
+case <id> kind=api|text|filter wf=0|1 cr=0|1 h=<history> fmt=<tbl> wbytes=<hex> nums=<tbl> tidy=<tbl> uni=<tbl> tag=…
+  h    : rec|rec|…  ("-" = empty)   the records handed to Writer.Write, as they were at that moment
+         rec = R;<name>;<iters>;<v,v,…|->;<c,c,…|->     v = bits:unit:origbits:origunit   c = key:value:F|I
+             | U;<tidy unit>;<key>;<unit as written>;<value>
+             | E
+  fmt  : bits:text,…      Go's `%v` text of every value the writer prints in this case
+  wbytes : what the IMPLEMENTATION wrote for h
+  nums/tidy/uni : the C02 reader oracles for the fields of wbytes (and the strings of h)
+
+obs  <id> bytes=<hex>     model writer's bytes                      (Go: implementation's bytes)
+obs  <id> ir=<stream>     observe(MODEL read(IMPLEMENTATION bytes)) (Go: observe(h) by the harness)
+obs  <id> mr=<stream>     observeWritten h                          (Go: observe(IMPL read(MODEL bytes)),
+                                                                     model bytes fetched from `driver_c01 serve`)
+       ir/mr are `skip` when wf=0 or cr=1 on the case line (round trip not expected / N1)
+spec <id> rt=<stream> leak=- [kf=N1]     only when the history satisfies Spec.RoundTrip.WFnoCR
+       (Go: sobs <id> rt=observe(IMPL read(IMPL bytes)) leak=<internal keys read back as file config>)
+
+serve mode (`driver_c01 serve`):  wreq <id> h=… fmt=…  ↦  wbytes <id> <hex>
+-/
+
+namespace Driver.C01
+open Proto Fmt
+
+def hexNat (s : String) : Option Nat :=
+  s.toList.foldl (fun acc c => match acc, Bytes.hexVal c with
+    | some a, some d => some (a * 16 + d)
+    | _, _ => none) (some 0)
+
+def hex64 (v : UInt64) : String :=
+  let n := v.toNat
+  String.ofList ((List.range 16).map fun i => Bytes.hexDigit ((n >>> (4 * (15 - i))) % 16))
+
+def missing : Bytes := Bytes.ofString "ORACLE-MISSING"
+
+def parseErr (s : String) : NumErr :=
+  if s == "s" then .syntax
+  else if s == "r" then .range
+  else .other ((Bytes.ofHex (s.drop 1).toString).getD missing)
+
+def parseInt (s : String) : Option Int :=
+  if s.startsWith "-" then (s.drop 1).toString.toNat?.map (fun n => -(Int.ofNat n))
+  else s.toNat?.map Int.ofNat
+
+structure Tables where
+  atoi : Std.HashMap String (Except NumErr Int) := {}
+  atof : Std.HashMap String (Except NumErr UInt64) := {}
+  tidy : Std.HashMap String (UInt64 × Bytes) := {}
+  uni : Std.HashMap Nat Nat := {}
+  fmt : Std.HashMap Nat Bytes := {}
+
+def entries (s : String) : List (List String) :=
+  if s == "-" || s == "" then [] else (s.splitOn ",").map (·.splitOn ":")
+
+def mkTables (l : Line) : Tables := Id.run do
+  let mut t : Tables := {}
+  for e in entries (l.getD "nums" "-") do
+    match e with
+    | [f, i, x] =>
+      let iv : Except NumErr Int :=
+        if i.startsWith "i" then
+          match parseInt (i.drop 1).toString with
+          | some v => .ok v
+          | none => .error (.other missing)
+        else .error (parseErr i)
+      let fv : Except NumErr UInt64 :=
+        if x.startsWith "f" then
+          match hexNat (x.drop 1).toString with
+          | some v => .ok (UInt64.ofNat v)
+          | none => .error (.other missing)
+        else .error (parseErr x)
+      t := { t with atoi := t.atoi.insert f iv, atof := t.atof.insert f fv }
+    | _ => pure ()
+  for e in entries (l.getD "tidy" "-") do
+    match e with
+    | [b, u, tb, tu] =>
+      match hexNat tb, Bytes.ofHex tu with
+      | some tbv, some tuv => t := { t with tidy := t.tidy.insert (b ++ ":" ++ u) (UInt64.ofNat tbv, tuv) }
+      | _, _ => pure ()
+    | _ => pure ()
+  for e in entries (l.getD "uni" "-") do
+    match e with
+    | [r, f] =>
+      match hexNat r, f.toNat? with
+      | some rv, some fv => t := { t with uni := t.uni.insert rv fv }
+      | _, _ => pure ()
+    | _ => pure ()
+  for e in entries (l.getD "fmt" "-") do
+    match e with
+    | [b, x] =>
+      match hexNat b, Bytes.ofHex x with
+      | some bv, some xv => t := { t with fmt := t.fmt.insert bv xv }
+      | _, _ => pure ()
+    | _ => pure ()
+  return t
+
+def mkOracles (t : Tables) : Oracles :=
+  let flag (bit : Nat) (r : Nat) : Bool := ((t.uni.getD r 0) >>> bit) % 2 == 1
+  { uc := { isSpace := flag 0, isUpper := flag 1, isLower := flag 2 }
+    atoi := fun f => (t.atoi.get? f.toHex).getD (.error (.other missing))
+    atof := fun f => (t.atof.get? f.toHex).getD (.error (.other missing))
+    tidy := fun v u => (t.tidy.get? (hex64 v ++ ":" ++ u.toHex)).getD (0, missing) }
+
+def mkParams (t : Tables) : WParams :=
+  { fmtNum := fun b => (t.fmt.get? b.toNat).getD missing }
+
+/-! ### history -/
+
+def u64? (s : String) : Option UInt64 := (hexNat s).map UInt64.ofNat
+
+def listOf (s : String) : List String := if s == "-" || s == "" then [] else s.splitOn ","
+
+def parseVal (s : String) : Option Val :=
+  match s.splitOn ":" with
+  | [v, u, ov, ou] =>
+    match u64? v, Bytes.ofHex u, u64? ov, Bytes.ofHex ou with
+    | some v, some u, some ov, some ou => some { value := v, unit := u, origValue := ov, origUnit := ou }
+    | _, _, _, _ => none
+  | _ => none
+
+def parseCfg (s : String) : Option Cfg :=
+  match s.splitOn ":" with
+  | [k, v, f] =>
+    match Bytes.ofHex k, Bytes.ofHex v with
+    | some k, some v => some { key := k, value := v, file := f == "F" }
+    | _, _ => none
+  | _ => none
+
+def parseRec (s : String) : Option Rec :=
+  match s.splitOn ";" with
+  | ["R", name, iters, vals, cfg] =>
+    match Bytes.ofHex name, parseInt iters, (listOf vals).mapM parseVal, (listOf cfg).mapM parseCfg with
+    | some name, some iters, some vals, some cfg =>
+      some (.result { config := cfg, name := name, iters := iters, values := vals, fileName := [], line := 0 })
+    | _, _, _, _ => none
+  | ["U", unit, key, orig, value] =>
+    match Bytes.ofHex unit, Bytes.ofHex key, Bytes.ofHex orig, Bytes.ofHex value with
+    | some unit, some key, some orig, some value =>
+      some (.unit { unit := unit, key := key, origUnit := orig, value := value, fileName := [], line := 0 })
+    | _, _, _, _ => none
+  | ["E"] => some (.err { fileName := [], line := 0, msg := [] })
+  | _ => none
+
+def parseHistory (s : String) : Option (List Rec) :=
+  if s == "-" || s == "" then some [] else (s.splitOn "|").mapM parseRec
+
+/-! ### observation stream -/
+
+def sortStrings (l : List String) : List String := (l.toArray.qsort (· < ·)).toList
+
+def joinOr (sep : String) (l : List String) : String := if l.isEmpty then "-" else sep.intercalate l
+
+open Spec.RoundTrip in
+def showObs : Obs → String
+  | .result name iters vals fm =>
+    let vs := vals.map fun (b, u) => s!"{hex64 b}.{u.toHex}"
+    let ms := sortStrings (fm.map fun (k, v) => s!"{k.toHex}.{v.toHex}")
+    s!"R/{name.toHex}/{iters}/{joinOr "+" vs}/{joinOr "+" ms}"
+  | .unit orig key value tidy => s!"U/{orig.toHex}/{key.toHex}/{value.toHex}/{tidy.toHex}"
+  | .err msg => s!"E/{msg.toHex}"
+
+def showStream (l : List Spec.RoundTrip.Obs) : String := joinOr "," (l.map showObs)
+
+def handleCase (l : Line) : IO Unit := do
+  let t := mkTables l
+  let O := mkOracles t
+  let P := mkParams t
+  match parseHistory (l.getD "h" "-") with
+  | none =>
+    IO.println s!"obs {l.id} bytes=BAD-HISTORY"
+  | some h =>
+    let mbytes := render (Writer.writeAll P h)
+    IO.println s!"obs {l.id} bytes={mbytes.toHex}"
+    let roundTrips := l.getD "wf" "1" == "1" && l.getD "cr" "0" == "0"
+    if roundTrips then
+      let wbytes := (l.bytes? "wbytes").getD []
+      IO.println s!"obs {l.id} ir={showStream (Spec.RoundTrip.observeRead (readAll O [] wbytes))}"
+      IO.println s!"obs {l.id} mr={showStream (Spec.RoundTrip.observeWritten h)}"
+    else
+      IO.println s!"obs {l.id} ir=skip"
+      IO.println s!"obs {l.id} mr=skip"
+    if Spec.RoundTrip.WFnoCR O h then
+      let kf := if Spec.RoundTrip.hasCRValue h then " kf=N1" else ""
+      IO.println s!"spec {l.id} rt={showStream (Spec.RoundTrip.observeWritten h)} leak=-{kf}"
+
+def handleServe (l : Line) : IO Unit := do
+  let t := mkTables l
+  let P := mkParams t
+  let out ← IO.getStdout
+  match parseHistory (l.getD "h" "-") with
+  | none => out.putStrLn s!"wbytes {l.id} BAD-HISTORY"
+  | some h => out.putStrLn s!"wbytes {l.id} {(render (Writer.writeAll P h)).toHex}"
+  out.flush
+
+end Driver.C01
+
+def main (args : List String) : IO Unit := do
+  let stdin ← IO.getStdin
+  if args.contains "serve" then
+    Proto.forEachLine stdin fun s =>
+      let l := Proto.parseLine s
+      if l.kind == "wreq" then Driver.C01.handleServe l else pure ()
+  else
+    Proto.forEachLine stdin fun s =>
+      let l := Proto.parseLine s
+      if l.kind == "case" then Driver.C01.handleCase l else pure ()
